@@ -403,8 +403,27 @@ pub fn run_case(case: &AllocCase, stats: &mut AllocStats) -> Result<(), Violatio
 
 	// 1. the constructor itself (and `validate`), on valid and invalid input
 	macro_rules! ctor {
-		($T:ty, $input:expr) => {{
+		($T:ty, $input:expr, $tokens:expr) => {{
 			let input = $input;
+			if only.is_none() || only == Some("try_from") {
+				stats.windows += 1;
+				let (r, reqs, first) = window(|| <&$T>::try_from(input).ok().map(|v| sl(v.as_bytes())));
+				if reqs != 0 {
+					return Err(fail("allocation_in_window", ty, "try_from", format!("{} allocation request(s) during <&{}>::try_from (first: {} bytes)", reqs, ty, first), text));
+				}
+				if let Some(s) = r {
+					if s != sl(text) {
+						return Err(fail("value_is_not_the_input", ty, "try_from", format!("<&{}>::try_from returned a value that does not occupy exactly the caller's input", ty), text));
+					}
+				}
+			}
+			if only.is_none() || only == Some("validate") {
+				stats.windows += 1;
+				let (_, reqs, first) = window(|| <$T>::validate($tokens));
+				if reqs != 0 {
+					return Err(fail("allocation_in_window", ty, "validate", format!("{} allocation request(s) during {}::validate (first: {} bytes)", reqs, ty, first), text));
+				}
+			}
 			if only.is_none() || only == Some("new") {
 				stats.windows += 1;
 				let (r, reqs, first) = window(|| <$T>::new(input).ok().map(|v| sl(v.as_bytes())));
@@ -427,7 +446,7 @@ pub fn run_case(case: &AllocCase, stats: &mut AllocStats) -> Result<(), Violatio
 
 	match ty {
 		"Uri" => {
-			if let Some(v) = ctor!(Uri, text) {
+			if let Some(v) = ctor!(Uri, text, text.iter().copied()) {
 				let mut cx = Ctx { ty, text, stats, only };
 				ri_accessors!(&mut cx, v, false);
 				cx.acc("as_refs", &[], false, || {
@@ -440,7 +459,7 @@ pub fn run_case(case: &AllocCase, stats: &mut AllocStats) -> Result<(), Violatio
 			}
 		}
 		"UriRef" => {
-			if let Some(v) = ctor!(UriRef, text) {
+			if let Some(v) = ctor!(UriRef, text, text.iter().copied()) {
 				let mut cx = Ctx { ty, text, stats, only };
 				ri_accessors!(&mut cx, v, true);
 				cx.acc("as_refs", &[], false, || {
@@ -454,7 +473,7 @@ pub fn run_case(case: &AllocCase, stats: &mut AllocStats) -> Result<(), Violatio
 		}
 		"Iri" => {
 			if let Some(s) = st {
-				if let Some(v) = ctor!(Iri, s) {
+				if let Some(v) = ctor!(Iri, s, s.chars()) {
 					let mut cx = Ctx { ty, text, stats, only };
 					ri_accessors!(&mut cx, v, false);
 					cx.acc("as_refs", &[], false, || {
@@ -469,7 +488,7 @@ pub fn run_case(case: &AllocCase, stats: &mut AllocStats) -> Result<(), Violatio
 		}
 		"IriRef" => {
 			if let Some(s) = st {
-				if let Some(v) = ctor!(IriRef, s) {
+				if let Some(v) = ctor!(IriRef, s, s.chars()) {
 					let mut cx = Ctx { ty, text, stats, only };
 					ri_accessors!(&mut cx, v, true);
 					cx.acc("as_refs", &[], false, || {
@@ -483,41 +502,41 @@ pub fn run_case(case: &AllocCase, stats: &mut AllocStats) -> Result<(), Violatio
 			}
 		}
 		"uri::Scheme" => {
-			ctor!(uri::Scheme, text);
+			ctor!(uri::Scheme, text, text.iter().copied());
 		}
 		"uri::Authority" => {
-			if let Some(a) = ctor!(uri::Authority, text) {
+			if let Some(a) = ctor!(uri::Authority, text, text.iter().copied()) {
 				let mut cx = Ctx { ty, text, stats, only };
 				authority_accessors!(&mut cx, a);
 			}
 		}
 		"uri::UserInfo" => {
-			ctor!(uri::UserInfo, text);
+			ctor!(uri::UserInfo, text, text.iter().copied());
 		}
 		"uri::Host" => {
-			ctor!(uri::Host, text);
+			ctor!(uri::Host, text, text.iter().copied());
 		}
 		"uri::Port" => {
-			ctor!(uri::Port, text);
+			ctor!(uri::Port, text, text.iter().copied());
 		}
 		"uri::Path" => {
-			if let Some(p) = ctor!(uri::Path, text) {
+			if let Some(p) = ctor!(uri::Path, text, text.iter().copied()) {
 				let mut cx = Ctx { ty, text, stats, only };
 				path_accessors!(&mut cx, p);
 			}
 		}
 		"uri::Segment" => {
-			ctor!(uri::Segment, text);
+			ctor!(uri::Segment, text, text.iter().copied());
 		}
 		"uri::Query" => {
-			ctor!(uri::Query, text);
+			ctor!(uri::Query, text, text.iter().copied());
 		}
 		"uri::Fragment" => {
-			ctor!(uri::Fragment, text);
+			ctor!(uri::Fragment, text, text.iter().copied());
 		}
 		"iri::Authority" => {
 			if let Some(s) = st {
-				if let Some(a) = ctor!(iri::Authority, s) {
+				if let Some(a) = ctor!(iri::Authority, s, s.chars()) {
 					let mut cx = Ctx { ty, text, stats, only };
 					authority_accessors!(&mut cx, a);
 				}
@@ -525,17 +544,17 @@ pub fn run_case(case: &AllocCase, stats: &mut AllocStats) -> Result<(), Violatio
 		}
 		"iri::UserInfo" => {
 			if let Some(s) = st {
-				ctor!(iri::UserInfo, s);
+				ctor!(iri::UserInfo, s, s.chars());
 			}
 		}
 		"iri::Host" => {
 			if let Some(s) = st {
-				ctor!(iri::Host, s);
+				ctor!(iri::Host, s, s.chars());
 			}
 		}
 		"iri::Path" => {
 			if let Some(s) = st {
-				if let Some(p) = ctor!(iri::Path, s) {
+				if let Some(p) = ctor!(iri::Path, s, s.chars()) {
 					let mut cx = Ctx { ty, text, stats, only };
 					path_accessors!(&mut cx, p);
 				}
@@ -543,17 +562,17 @@ pub fn run_case(case: &AllocCase, stats: &mut AllocStats) -> Result<(), Violatio
 		}
 		"iri::Segment" => {
 			if let Some(s) = st {
-				ctor!(iri::Segment, s);
+				ctor!(iri::Segment, s, s.chars());
 			}
 		}
 		"iri::Query" => {
 			if let Some(s) = st {
-				ctor!(iri::Query, s);
+				ctor!(iri::Query, s, s.chars());
 			}
 		}
 		"iri::Fragment" => {
 			if let Some(s) = st {
-				ctor!(iri::Fragment, s);
+				ctor!(iri::Fragment, s, s.chars());
 			}
 		}
 		_ => {}
